@@ -2,6 +2,7 @@ import Qentem.Model.Tmpl.Spec
 import Qentem.Proofs.TmplText
 import Qentem.Proofs.TmplParseSegs
 import Qentem.Proofs.TmplRenderSegs
+import Qentem.Proofs.TmplBlockIf
 /-!
 # C02 — rendering a well-formed template yields the documented expansion
 
@@ -116,6 +117,41 @@ theorem render_parse_print_segs {R : Type} [RealLike R] (cx : RCtx R) (sx : Spec
   simp only [Except.bind]
   rw [render_segs cx cfg hg hrn segs hc hpath hok hsc _ (by omega), expand,
     expandList_segs cx sx same segs _ (by omega)]
+
+/-- stage 4 of `RenderParsePrint`: block templates — any sequence of segment runs (text, `{var:}`,
+`{raw:}`, `{math:}` as in stage 3) and `<if case="e">segments</if>` blocks (`e` free of `{ < } "`:
+an expression over literals with any operator but `<`-based ones; the body any covered segments).
+The parse half gives the exact tag list with one `If` tag per block (`parse_blks`); the `If` tag's
+case list is the scan of `e` in place, its decision equals the reference `isTrue (evalText e)`
+(`case_hit`, through the relocation theorems); hence, for every value, number reader, formatter
+and escape switch: parse + render = the documented expansion. -/
+theorem render_parse_print_blocks {R : Type} [RealLike R] (cx : RCtx R) (sx : SpecCtx R)
+    (cfg : ScanCfg R) (bs : List Blk) (hg : cx.guardIndexRead = true) (same : SameCtx cx sx)
+    (hrn : cfg.readNum = cx.readNum)
+    (hc : cx.content = printList (blksTpl bs)) (hok : ∀ b ∈ bs, b.ok) (hpath : ∀ b ∈ bs, b.pathOk)
+    (hn : cx.content.length + 16 < 4294967296) (fuel fuel' : Nat) :
+    (parse cfg cx.content).bind (fun tags => renderTop cx tags (rneed bs + rcost bs + fuel)) =
+      .ok (expand sx (blksTpl bs) (eneed bs + fuel')) := by
+  rw [printBlks_eq] at hc
+  have hn' := hn
+  rw [hc] at hn'
+  have hp := Qentem.Tmpl.parse_blks cfg bs hok hn'
+  rw [← hc] at hp
+  rw [hp]
+  simp only [Except.bind]
+  rw [show rneed bs + rcost bs + fuel = (rneed bs + fuel) + rcost bs by omega,
+    renderTop_blks cx cfg hg hrn bs hc hok hpath _ (by omega), expand, same.eq,
+    expandList_blks cx bs _ (by omega)]
+
+/-- non-vacuity: `a<if case="1 > 0">{var:x}</if>` is such a template -/
+example : Blk.ok (.ifc [49, 32, 62, 32, 48] [.var [120]]) ∧ Blk.pathOk (.ifc [49, 32, 62, 32, 48] [.var [120]]) := by
+  refine ⟨⟨?_, ?_, ?_⟩, ?_⟩
+  · intro x hx; simp at hx; rcases hx with h | h | h | h | h <;> subst h <;> (unfold plainU; decide)
+  · intro x hx; simp at hx; rcases hx with h | h | h | h | h <;> subst h <;> decide
+  · intro s hs; simp at hs; subst hs
+    exact ⟨by intro x hx; simp at hx; subst hx; unfold plainU; decide, by simp, by simp⟩
+  · intro s hs; simp at hs; subst hs
+    exact ⟨[120], [], by simp [brk], by simp, by intro x hx; simp at hx; subst hx; decide, by intro k hk; cases hk⟩
 
 /-- side conditions under which the document determines the output (the generator of
 `checks/c02.py` produces exactly such templates) — informal list kept next to the statement:
